@@ -110,3 +110,40 @@ func TourDeposits(rt *rapid.T, muts []string) *ChainCase {
 	}
 	return cc
 }
+
+// TourUpgradesAfterSyncRotation: one-or-two-epoch sync-committee periods and fork epochs spread out so
+// that every post-Altair upgrade copies a state whose current and next sync committees differ (they are
+// equal for the whole first period after upgrade_to_altair), with a registry of mixed effective
+// balances so that consecutive committees really differ.
+func TourUpgradesAfterSyncRotation(rt *rapid.T) *ChainCase {
+	period := rapid.SampledFrom([]uint64{1, 2}).Draw(rt, "sync_period")
+	a := uint64(rapid.IntRange(1, 2).Draw(rt, "altair"))
+	b := a + period + uint64(rapid.IntRange(0, 2).Draw(rt, "gap_b"))
+	c := b + uint64(rapid.IntRange(0, 3).Draw(rt, "gap_c"))
+	d := c + uint64(rapid.IntRange(0, 3).Draw(rt, "gap_d"))
+	o := TourBaseOverride(map[string]uint64{"EPOCHS_PER_SYNC_COMMITTEE_PERIOD": period,
+		"SYNC_COMMITTEE_SIZE": rapid.SampledFrom([]uint64{4, 8, 12}).Draw(rt, "sync_size")})
+	cc := &ChainCase{Profile: "full", Config: ConfigCase{Family: "custom", ForkEpochs: [4]uint64{a, b, c, d}, Override: o}}
+	n := rapid.IntRange(8, 24).Draw(rt, "n")
+	cc.Genesis = GenesisCase{N: n, GenesisTime: 1000, Eth1Seed: rapid.Uint64().Draw(rt, "eth1_seed")}
+	for i := 0; i < n; i++ {
+		ac := 0
+		if i >= 4 {
+			ac = rapid.SampledFrom([]int{0, 0, 4, 4, 5, 2}).Draw(rt, "amount_class")
+		}
+		cc.Genesis.AmountClass = append(cc.Genesis.AmountClass, ac)
+		cc.Genesis.Eth1Cred = append(cc.Genesis.Eth1Cred, rapid.Bool().Draw(rt, "eth1_cred"))
+	}
+	total := int(d+2) * 4
+	for s := 0; s < total; {
+		if rapid.IntRange(0, 3).Draw(rt, "block") == 0 {
+			cc.Actions = append(cc.Actions, Action{Kind: "block", Slots: 1, Plan: tourBlock(rt, rapid.SampledFrom([]int{1000, 600}).Draw(rt, "part"))})
+			s++
+		} else {
+			k := rapid.IntRange(1, 5).Draw(rt, "skip")
+			cc.Actions = append(cc.Actions, Action{Kind: "skip", Slots: k})
+			s += k
+		}
+	}
+	return cc
+}
